@@ -211,3 +211,15 @@ theorem C11_http_server_nothing_after_return (s : St) (a : Act) (s' : St) (r : R
   obtain ⟨rfl, rfl⟩ := h; rfl
 
 end HttpServerStream
+
+namespace HttpServerStream
+
+/-- the sites the stream model builds in, regenerated from httpgrpc/server.go on every run: the
+    trailer frame is skipped only after a failed write; SendMsg answers io.EOF after a failed write,
+    commits the headers and remembers a failure; setHeader refuses once the headers are committed
+    before touching the header map; SetTrailer accumulates copies; the single-request probe -/
+theorem C11_http_stream_facts :
+    Gen.streamTrailerSkipConds = ["str.writeFailed"] ∧ Gen.serverSendShape = true ∧ Gen.serverHeaderGuardFirst = true ∧
+    Gen.serverTrailerAppends = true ∧ Gen.serverSingleRequestProbe = true := by decide
+
+end HttpServerStream
